@@ -158,6 +158,9 @@ func genDotenv() (string, string) {
 		cps = append(cps, i)
 	}
 	cps = append(cps, 0x85, 0xA0, 0xE9, 0xB2, 0x4E16)
+	// representatives of the generic class (neither space nor letter nor number): currency, arrow, combining mark,
+	// CJK punctuation, private use, emoji beyond the BMP
+	cps = append(cps, 0x20AC, 0x2192, 0x0301, 0x3001, 0xE000, 0x1F600)
 	for i, cp := range cps {
 		if i > 0 {
 			b.WriteString(", ")
